@@ -10,7 +10,7 @@ from pathlib import Path
 from .common import enc_bytes, enc_tc
 
 KINDS = ("line", "char", "symbol", "jsstr", "attrs")
-MODELLED = ("line", "char", "symbol")
+MODELLED = ("line", "char", "symbol", "jsstr", "attrs")
 
 _scratch = None
 
